@@ -87,14 +87,15 @@ func runC13(c *eng.Ctx, tier string) {
 	if run := anchor(p, setecPkg, "(*Store).run"); run != nil {
 		ctxP := ctxParam(run)
 		n := 0
-		eng.Instrs(run, func(in ssa.Instruction) {
+		// (the loop may live in a helper of run that is handed run's context)
+		eng.InstrsDeep(run, func(g *ssa.Function, in ssa.Instruction) {
 			sel, ok := in.(*ssa.Select)
 			if !ok {
 				return
 			}
 			for i, stt := range sel.States {
 				call, _ := eng.TupleCall(stt.Chan)
-				if call == nil || !call.Call.IsInvoke() || call.Call.Method.Name() != "Done" || eng.Origin(call.Call.Value) != ssa.Value(ctxP) {
+				if call == nil || !call.Call.IsInvoke() || call.Call.Method.Name() != "Done" || eng.OriginX(call.Call.Value) != eng.OriginX(ctxP) {
 					continue
 				}
 				n++
@@ -106,7 +107,7 @@ func runC13(c *eng.Ctx, tier string) {
 					}
 				}
 				var branch *ssa.BasicBlock
-				eng.Instrs(run, func(x ssa.Instruction) {
+				eng.Instrs(g, func(x ssa.Instruction) {
 					if ifi, ok := x.(*ssa.If); ok {
 						op, a, b, isCmp := eng.CondOf(ifi.Cond, true).Cmp()
 						if isCmp && op == token.EQL && a == idxVal {
@@ -120,9 +121,17 @@ func runC13(c *eng.Ctx, tier string) {
 					c.Undecided("R-C13-1", run, sel.Pos(), "shutdown branch of the poller", "cannot locate the Done case")
 					continue
 				}
-				hit, path := eng.SearchBlock(run, branch, nil, isFlush, eng.IsReturn)
+				hit, path := eng.SearchBlock(g, branch, nil, isFlush, eng.IsReturn)
 				if isFlush(branch.Instrs[0]) {
 					hit = nil
+				}
+				if hit != nil && g != run {
+					// the helper returns without flushing: run may do it after the call
+					if cs := eng.ContextCallSite(g); cs != nil && cs.Parent() == run {
+						if h2, _ := eng.Search(run, cs, nil, isFlush, eng.IsReturn); h2 == nil {
+							hit = nil
+						}
+					}
 				}
 				c.Check(hit == nil, "R-C13-1", run, sel.Pos(), "shutdown branch of the poller", "the cache is flushed before the poller returns", func() string {
 					if hit == nil {
@@ -138,7 +147,7 @@ func runC13(c *eng.Ctx, tier string) {
 		// ... and the poller has no other way out: whichever way it stops, the
 		// cache is rewritten first (what an earlier failed flush left out is
 		// persisted at shutdown at the latest)
-		hit, path := eng.Search(run, nil, nil, isFlush, eng.IsReturn)
+		hit, path := eng.SearchX(run, nil, nil, isFlush, eng.IsReturn)
 		c.Check(hit == nil, "R-C13-1", run, run.Pos(), "ways out of the poller", "every return of the poller is preceded by the shutdown flush", func() string {
 			if hit == nil {
 				return ""
